@@ -39,7 +39,7 @@ def tcp_scripts():
     for hold_ms in (40, 90):
         procs = [{"name": "a", "ops": [{"at": 0, "do": "connect"}, {"at": 0, "do": "send", "stamp": 1}, {"after": "GateHeld", "do": "disconnect"}]},
                  {"name": "b", "ops": [{"after": "a.disconnect.0", "do": "connect"}, {"at": 0, "do": "send", "stamp": 1}, {"after": "ReloadEnd", "do": "send", "stamp": 2}, {"at": 0, "do": "disconnect"}]},
-                 {"name": "r", "ops": [{"after": "a.send.1", "do": "reload", "kind": "ok"}]}]
+                 {"name": "r", "ops": [{"after": "DAccept", "do": "reload", "kind": "ok"}]}]   # a's record is delivered, its connection idle
         out.append({"id": "disconnect-during-reload-%d" % hold_ms, "seed": 1, "tcp": True, "procs": procs, "holds": [{"gate": "rl.reload.locked", "nth": 1, "sleepMs": hold_ms}]})
     return out
 
